@@ -24,6 +24,7 @@ SIG_NEG_LINE = 'grid:negative-line-not-from-end'
 SIG_NEG_INDEX = 'grid:negative-index-wraps'
 SIG_MISSING_TRACK = 'grid:implicit-track-missing-for-span'
 SIG_FR_STRETCH = 'grid:fr-sum-below-one-stretched'
+SIG_FR_FREEZE = 'grid:fr-freeze-no-restart'
 
 
 # ------------------------------------------------------------------------------------------ Coq printers
@@ -282,19 +283,44 @@ def place_signature(c, st, o, mask):
 
 
 def tracks_signature(c, mask):
-    def axis(tracks, box, gap, just):
-        fr = [Fraction(t[1]) for t in tracks if t[0] == 'fr']
-        fixed = sum(Fraction(t[1]) if t[0] == 'px' else Fraction(box) * t[1] / 100 for t in tracks if t[0] != 'fr')
-        free = box - fixed - (len(tracks) - 1) * gap
-        return bool(fr) and sum(fr) < 1 and just != 'start' and free > 0
-    ok = True
-    if mask & 4 and not axis(c['cols'], c['width'], c['gap_c'], c['jc']):
-        ok = False
-    if mask & 8 and not axis(c['rows'], c['height'], c['gap_r'], c['ac']):
-        ok = False
-    if mask & 16:
-        ok = False
-    return SIG_FR_STRETCH if ok else None
+    """mechanism of a track-size specification failure on the pinned tree: (a) step 1.5 stretches fr tracks whose factors
+    sum to less than 1 (needs such tracks, free space, content distribution normal/stretch); (b) an fr track with
+    content is frozen by the 1.4 loop, which then stops instead of restarting (needs a frozen track)."""
+    def axis(horizontal, tracks, box, gap, just):
+        bases = []
+        for k, t in enumerate(tracks):
+            if t[0] == 'px':
+                bases.append(Fraction(t[1]))
+            elif t[0] == 'pct':
+                bases.append(Fraction(box) * t[1] / 100)
+            else:
+                b = 0
+                for it in c['items']:
+                    if horizontal and it['w'] == 1 and it['x'] == k:
+                        b = max(b, it['cw'])
+                    if not horizontal and it['h'] == 1 and it['y'] == k:
+                        b = max(b, it['chh'])
+                bases.append(Fraction(b))
+        fr = [(Fraction(t[1]), bases[k]) for k, t in enumerate(tracks) if t[0] == 'fr']
+        free = box - sum(bases) - (len(tracks) - 1) * gap
+        if not fr or free <= 0:
+            return None
+        hyp = (free + sum(b for _, b in fr)) / max(1, sum(f for f, _ in fr))
+        if any(hyp * f < b for f, b in fr):
+            return SIG_FR_FREEZE
+        if just != 'start' and sum(f for f, _ in fr) < 1:
+            return SIG_FR_STRETCH
+        if just != 'start' and any(b > 0 for _, b in fr):
+            return SIG_FR_STRETCH       # free_space bookkeeping of the final expansion leaves a remainder: 1.5 hands it out
+        return None
+    sigs = set()
+    if mask & 4:
+        sigs.add(axis(True, c['cols'], c['width'], c['gap_c'], c['jc']))
+    if mask & 8:
+        sigs.add(axis(False, c['rows'], c['height'], c['gap_r'], c['ac']))
+    if mask & 16 or None in sigs or not sigs:
+        return None
+    return SIG_FR_FREEZE if SIG_FR_FREEZE in sigs else SIG_FR_STRETCH
 
 
 # ---------------------------------------------------------------------------------------------- streams
@@ -326,15 +352,17 @@ def grid_streams(run, rng, thorough):
             run.fail('grid placement: implementation and model disagree', {'stream': 'grid-place', 'case': c,
                                                                            'status': st})
         seen_sig = set()
+        unsigned = 0
         kinds = collections.Counter()
         for c, (st, o), m in zip(cases, outs, masks):
             kinds[st if st != 'exc' else 'exc:%s' % (o.get('type'),)] += 1
             if not m & 2:
                 continue
             sig = place_signature(c, st, o, m)
-            if sig in seen_sig and sig is not None:
+            if sig in seen_sig and (sig is not None or unsigned >= 3):
                 continue
             seen_sig.add(sig)
+            unsigned += sig is None
             clause = ('crashed or hung' if m & 32 else 'overlap of an auto-placed item' if m & 8 else
                       'area differs from the line numbers' if m & 4 else 'rectangle differs from the area')
             run.fail('grid placement violates the specification (%s)' % clause,
@@ -379,13 +407,15 @@ def grid_streams(run, rng, thorough):
         for c in mism[:2]:
             run.fail('grid track sizing: implementation and model disagree', {'stream': 'grid-tracks', 'case': c})
         seen_sig = set()
+        unsigned = 0
         for (c, o), m in zip(kept, masks):
             if not m & 2:
                 continue
             sig = tracks_signature(c, m)
-            if sig in seen_sig and sig is not None:
+            if sig in seen_sig and (sig is not None or unsigned >= 3):
                 continue
             seen_sig.add(sig)
+            unsigned += sig is None
             run.fail('grid track sizes violate css-grid 12.7 (fixed/percentage exact, fr tracks share the free space '
                      'in proportion, a factor sum below 1 leaves space unfilled)',
                      {'stream': 'grid-tracks', 'case': c, 'mask': m, 'html': tracks_html(c),
